@@ -48,7 +48,7 @@ def process_signature(app, what, name, obj, options,
                       sig, return_annotation):
     try:
         parent, obj = fetch_dotted_name(name)
-    except AttributeError:
+    except (AttributeError, ImportError):
         return sig, return_annotation
     if isinstance(obj, instancemethod): # python 2 unbound methods
         obj = obj.__func__
@@ -82,6 +82,9 @@ def process_signature(app, what, name, obj, options,
 
 def fetch_dotted_name(name):
     assert name
+    if '.' not in name:
+        # a top-level module, documented by automodule
+        return None, __import__(name)
     post_import = name.split('.')[1:]
     while name:
         name = name.rpartition('.')[0]
